@@ -50,6 +50,10 @@ def run(ctx):
                        (v["exp"]["k"] in RECOVER or v["got"]["k"] in RECOVER or campaign.kind_of(v).startswith("result:")) and m["case"]["op"] == "parse")
         cvs = campaign.validate_cam(camp)
         campaign.judge_cam(ctx, camp, cvs, ["C09."])
+        if not quick:
+            # the repository's own tests, recorded under the hook and replayed through the pushdown machine
+            from .. import repotests
+            repotests.run(ctx, ["C09."])
         nt = 0
         for cid, m in camp.sh.meta.items():
             if "case" in m:
